@@ -10,6 +10,7 @@ Scratch worktrees live under $TMPDIR/automut and are removed at the end.
 """
 import argparse, glob, json, os, random, re, subprocess, sys, threading, queue, time
 
+ARGS = None
 VERIF = os.path.dirname(os.path.dirname(os.path.abspath(__file__)))
 REPO = '/repo'
 ENV = dict(os.environ, GOFLAGS='-mod=mod', GOPROXY='off')
@@ -93,7 +94,10 @@ def worker(k, q, out, lock, tmp):
                 rec['outcome'] = 'does-not-compile'
             else:
                 pkgs = [pk] if pk == '.' else [pk, '.']
-                rc, o = run(['go', 'test', '-vet=off', '-count=1', '-timeout', '240s'] + pkgs, wt, 600)
+                if ARGS.contracts_only:
+                    rc, o = 0, ''
+                else:
+                    rc, o = run(['go', 'test', '-vet=off', '-count=1', '-timeout', '240s'] + pkgs, wt, 600)
                 if rc != 0:
                     rec['outcome'] = 'killed-by-tests'
                 else:
@@ -127,7 +131,10 @@ def main():
     ap.add_argument('-j', type=int, default=4)
     ap.add_argument('-seed', type=int, default=1)
     ap.add_argument('-only', default='')
+    ap.add_argument('-contracts-only', dest='contracts_only', action='store_true', help='skip the test suite: measure what the contracts alone kill')
     a = ap.parse_args()
+    global ARGS
+    ARGS = a
     os.makedirs(VERIF + '/automut', exist_ok=True)
     ss = sites(contracts(), a.only)
     random.Random(a.seed).shuffle(ss)
@@ -139,7 +146,7 @@ def main():
     tmp = os.path.join(os.environ.get('TMPDIR', '/tmp'), 'automut')
     os.makedirs(tmp, exist_ok=True)
     lock = threading.Lock()
-    out = open(VERIF + '/automut/results_seed%d.jsonl' % a.seed, 'a')
+    out = open(VERIF + '/automut/results_seed%d%s.jsonl' % (a.seed, '_contracts_only' if a.contracts_only else ''), 'a')
     ts = [threading.Thread(target=worker, args=(k, q, out, lock, tmp)) for k in range(a.j)]
     for t in ts:
         t.start()
